@@ -467,3 +467,49 @@ func (r *Run) FieldWriters(pkg, typ, field string, allowed []string, why string)
 		r.viol("vacuous-rule", "", construct, "no writer found at all", why, "", 0)
 	}
 }
+
+// CallCount: fn contains exactly n call sites matching match.
+func (r *Run) CallCount(fnName, match string, n int, why string) {
+	fn := r.fn(fnName)
+	if fn == nil {
+		return
+	}
+	file, line := r.P.FnPos(fn)
+	sites := r.P.FindCalls(fn, match, true)
+	construct := fmt.Sprintf("exactly %d× %s", n, match)
+	if len(sites) != n {
+		r.viol("K2-call-count", fnName, construct, fmt.Sprintf("%s has %d call sites of %s, expected %d", fnName, len(sites), match, n), why, file, line)
+		return
+	}
+	r.pass("K2-call-count", fnName, construct, "", why, file, line)
+}
+
+// FirstEffect: a call matching match is in the entry block and no other call precedes it.
+func (r *Run) FirstEffect(fnName, match, why string) {
+	fn := r.fn(fnName)
+	if fn == nil {
+		return
+	}
+	file, line := r.P.FnPos(fn)
+	construct := match + " is the first effect"
+	for _, in := range fn.Blocks[0].Instrs {
+		ci, ok := in.(ssa.CallInstruction)
+		if !ok {
+			continue
+		}
+		full, bare := r.P.calleeName(ci.Common())
+		cs := &CallSite{Instr: ci, Callee: full, Method: bare, Path: r.P.Env(fn).callPath(ci.Common())}
+		if calleeMatches(cs, match) {
+			f2, l2 := r.P.Pos(ci.Pos())
+			r.pass("K2-first-effect", fnName, construct, "", why, f2, l2)
+			return
+		}
+		if _, isB := ci.Common().Value.(*ssa.Builtin); isB {
+			continue
+		}
+		f2, l2 := r.P.Pos(ci.Pos())
+		r.viol("K2-first-effect", fnName, construct, fmt.Sprintf("the call at %s:%d (%s) precedes %s", f2, l2, full, match), why, f2, l2)
+		return
+	}
+	r.viol("K2-first-effect", fnName, construct, match+" is not called in the entry block of "+fnName, why, file, line)
+}
